@@ -22,7 +22,8 @@ CLAIM = dict(
           'reverse_cumsum accept the same methods, select direction consistently and the matmul form contracts with the ≤ / ≥ triangular mask; centred and '
           'upwind advection pad w and ∂x/∂σ with zeros top-then-bottom and average with −½; sigma ratios, the dense geopotential weights and the '
           'cumulative-sum form agree with α_j = ½Δlog σ, α_last = −log σ_last, G[j,j]=α_j, G[j,k>j]=α_k+α_{k−1}, scaled by R. Also decided: coordinate arrays (boundaries, centers, thickness) are never updated in place (may-alias analysis shared with C01.7). Does not decide the '
-          'telescoping / summation-by-parts identities or exactness on affine data numerically.'),
+          'telescoping / summation-by-parts identities or exactness on affine data numerically.'
+          ' Later additions: C13.6 coordinate arrays never updated in place.'),
     note=('Trusted: numpy/jax semantics of diff(append=), concatenate, cumsum, flip, einsum with interleaved axes, lax.slice_in_dim. Recognised idioms are '
           'listed in rules/c13.py; an unrecognised spelling at an anchored site is reported as ANALYSIS-ERROR, not as a verdict.'),
     technique='abstract interpretation to terms + structural / normal-form matching of measures and index patterns + guard folding over truth patterns',
